@@ -386,8 +386,8 @@ theorem subList_wf (h : Heap) (a : Nat) (s e : Int) (wf : HeapWF h) : HeapWF (su
         (wf a).1 w (List.mem_of_mem_drop (List.mem_of_mem_take hw)))
 
 theorem concat_wf (h : Heap) (a : Nat) (r : Ref) (wf : HeapWF h) : HeapWF (concat h a r).1 := by
-  by_cases hb : h.ego r.addr = 0 ∧ h.isList r.addr = true
-  · rw [concat_ok h a r hb.1 hb.2]
+  by_cases hb : h.isList r.addr = true
+  · rw [concat_ok h a r hb]
     refine wf.append_list _ 0 (fun w hw => ?_)
     rcases List.mem_append.1 hw with hw | hw
     · exact (wf a).1 w hw
